@@ -24,7 +24,7 @@ type Engine struct {
 	pkgs       []*packages.Package
 	ssaPkgs    map[string]*ssa.Package
 	intrinsics map[string]intrinsicFn
-	models     map[string]*ssa.Function // //verif:model redirections
+	models     map[string][]*ssa.Function // //verif:model redirections (per defining package)
 	skipInit   map[string]bool
 	maxSteps   int64
 	unwind     int
@@ -123,7 +123,7 @@ func LoadEngine(repo string, pkgDirs []string, overlay map[string][]byte, gowork
 	prog, spkgs := ssautil.AllPackages(pkgs, ssa.InstantiateGenerics)
 	prog.Build()
 	e := &Engine{prog: prog, pkgs: pkgs, ssaPkgs: map[string]*ssa.Package{}, repo: repo,
-		intrinsics: map[string]intrinsicFn{}, models: map[string]*ssa.Function{}, skipInit: map[string]bool{},
+		intrinsics: map[string]intrinsicFn{}, models: map[string][]*ssa.Function{}, skipInit: map[string]bool{},
 		maxSteps: 30_000_000, unwind: 300, maxAlloc: 1 << 20, maxThreads: 12}
 	for i, p := range pkgs {
 		if spkgs[i] != nil {
@@ -217,7 +217,7 @@ func (e *Engine) FindHarnesses(prop string) []*HarnessSpec {
 						if strings.HasPrefix(txt, "verif:model ") {
 							target := strings.TrimSpace(strings.TrimPrefix(txt, "verif:model "))
 							if fn := sp.Func(fd.Name.Name); fn != nil {
-								e.models[target] = fn
+								e.models[target] = append(e.models[target], fn)
 							}
 						}
 					}
